@@ -247,6 +247,11 @@ DECLS = {
     "map-of-slices": ("", "(a uint64, b uint64) uint64 {\n\tm := make(map[uint64][]uint64)\n\tm[1] = append(m[1], a)\n\treturn m[1][0] + uint64(len(m[2]))\n}"),
     "nested-pointer": ("", "(a uint64, b uint64) uint64 {\n\tw := new(uint64)\n\tpp := new(*uint64)\n\t*pp = w\n\t**pp = a + 2\n\treturn *w\n}"),
     "pointer-to-field": ("", "(a uint64, b uint64) uint64 {\n\tp := &S0{a: 1}\n\tq := &p.a\n\t*q = a + 4\n\treturn p.a\n}"),
+    "global-pointer": ("var gp_HOLE = new(uint64)\n", "(a uint64, b uint64) uint64 {\n\t*gp_HOLE = a + 5\n\treturn *gp_HOLE\n}"),
+    "global-map": ("var gm_HOLE = make(map[uint64]uint64)\n", "(a uint64, b uint64) uint64 {\n\tgm_HOLE[1] = a + 5\n\treturn gm_HOLE[1]\n}"),
+    "global-struct-with-pointer-field": ("type GS_HOLE struct {\n\tp *uint64\n\tn uint64\n}\n\nvar gs_HOLE = GS_HOLE{p: new(uint64), n: 1}\n",
+                                         "(a uint64, b uint64) uint64 {\n\t*gs_HOLE.p = a + 5\n\treturn *gs_HOLE.p + gs_HOLE.n\n}"),
+    "global-struct-of-numbers": ("type GN_HOLE struct {\n\tx uint64\n\ty uint64\n}\n\nvar gn_HOLE = GN_HOLE{x: 3, y: 4}\n", "(a uint64, b uint64) uint64 {\n\treturn gn_HOLE.x + gn_HOLE.y*10 + a\n}"),
     "pointer-to-element": ("", "(a uint64, b uint64) uint64 {\n\ts := make([]uint64, 2)\n\tq := &s[1]\n\t*q = a + 4\n\treturn s[1]\n}"),
 }
 
